@@ -23,7 +23,7 @@ RULE = ("random inputs per loader: manual = random dict; empirical = random obse
 ASSUMPTIONS = ["marginal support: S = product of S_i with [kmin_i, kmax_i-1] <= S_i <= [kmin_i, kmax_i] (half-open or closed both accepted)",
                "sampling mode decided by Pearson chi-square, p>=1e-4 held, one escalation with 4x samples, p<1e-6 violated",
                "exact comparisons at 1e-12"]
-HEADLINE = ["loaders", "manual", "empirical", "function", "marginal_direct", "marginal_sampling", "dispatcher_path", "dispatcher_equal_checks", "recreate_checks", "update_history_checks",
+HEADLINE = ["loaders", "manual", "empirical", "function", "marginal_direct", "marginal_sampling", "dispatcher_path", "dispatcher_equal_checks", "recreate_checks", "update_history_checks", "in_place_observation_edits",
             "box_points_evaluated", "shared_marginal_callable", "chi2_tests", "chi2_escalations"]
 REQUIRED = {t: {"manual": 10, "empirical": 10, "function": 10, "marginal_direct": 10, "marginal_sampling": 5,
                 "dispatcher_equal_checks": 30, "shared_marginal_callable": 8} for t in ("quick", "thorough")}
@@ -139,7 +139,21 @@ def run_case(case):
             for _ in range(rng.choice([1, 2])):
                 pool2 = [tuple(rng.randrange(0, 5) for _ in range(T)) for _ in range(rng.randint(1, 6))]
                 jds2 = [rng.choice(pool2) for _ in range(rng.choice([1, 4, 30]))]
-                L.empirical_jds = list(jds2)
+                how = rng.choice(["setter", "in-place-extend", "in-place-assign"])
+                if how == "setter":
+                    L.empirical_jds = list(jds2)
+                else:
+                    # the caller's own list, edited in place (the loader holds a reference to it)
+                    cur = L.empirical_jds
+                    if how == "in-place-extend":
+                        cur.extend(jds2)
+                    else:
+                        for i in range(len(cur)):
+                            if rng.random() < 0.5:
+                                cur[i] = rng.choice(jds2)
+                        cur.append(jds2[0])
+                    jds2 = list(cur)
+                    res.count("in_place_observation_edits")
                 sut("create_jdd (new observations)", L.create_jdd)
                 res.count("update_history_checks")
                 want2 = {k: c / len(jds2) for k, c in Counter(jds2).items()}
